@@ -268,6 +268,7 @@ class IENAM(IENA):
         """
 
         super(IENAM, self).unpack(buf)
+        self.parameters = []
         remaining_payload = self.payload
 
         while len(remaining_payload) > 0:
